@@ -75,6 +75,10 @@ package pkcs9
 //@   ghost eq bool = false
 //@   on call bytes.Equal(a, b) ret (r): eq = (r && sameslice(b, encryptedDigest) && sameslice(a, content))
 //@   ensures @legacy_token_covers_this_signature_value ret1 == nil ==> eq
+//@   ghost cmsOK bool = false
+//@   before call (*pkcs7.SignedData).Verify(_, ext, skip): assert @token_signature_is_verified_with_its_content_digest !skip && len(ext) == 0
+//@   on call (*pkcs7.SignedData).Verify(_, _, skip) ret (s, e): cmsOK = (e == nil && !skip)
+//@   ensures @legacy_token_is_cms_verified_including_the_digest_of_its_content ret1 == nil ==> cmsOK
 //@
 //@ func (CounterSignature).VerifyChain
 //@   property C10
